@@ -534,12 +534,19 @@ def call_heap_method(spec, fn, case):
     sentinel = fn.__globals__[cls['sentinels'][0]] if cls.get('sentinels') else object()
     obj = heap_build(cls, pycls, case['self'], sentinel)
     pos = []
+    kw = {}
+    omitted = False
     for p, tt in spec['params'].items():
         v = to_py(py2lean.parse_type(tt), case[py2lean.mangle(p)])
         if v is None and cls.get('sentinels') and py2lean.parse_type(tt)[0] == 'Option':
-            break           # `none` of a parameter whose Python default is an "omitted" marker: omit the argument
-        pos.append(v)
-    kw = {}
+            omitted = True  # `none` of a parameter whose Python default is an "omitted" marker: omit the argument
+            continue
+        if omitted:         # round 3e: a later argument that IS given (`poplast(default=5)`) goes by keyword
+            if spec.get('key_locals') is None:
+                break       # (the behaviour before round 3e for every other spec)
+            kw[p] = v
+        else:
+            pos.append(v)
     for kn, kt in spec.get('kwargs', {}).items():
         kw.update(to_py(py2lean.parse_type(kt), case[kn]))
     try:
@@ -1868,6 +1875,11 @@ def run(pids, quick=False, seed=0, verbose=True, snippets=False):
             else:                               # a method that changes nothing returns its value only
                 want = want[:1]
                 got_c = [list(('exc', val[1]) if val[0] == 0 else ('ok', dec(rtype, val, 1)[0]))]
+            if spec.get('key_locals') and list(got_c[0]) == ['exc', 7]:
+                # round 3e: the checked unboxing of a key failed (`PyExc.Other`): the translation says "not modelled" (a
+                # state outside the class's reach: `root[PREV]` is not a cell although the dict is not empty); counted
+                r['unmodelled'] = r.get('unmodelled', 0) + 1
+                continue
             r['compared'] += 1
             if want[0][0] == 'exc':
                 r['python_raises'] += 1
